@@ -70,7 +70,7 @@ def gen_coq():
     return _prepared['gen']
 
 
-SRC_TIED = ('C01', 'C02', 'C06', 'C08', 'C10', 'C11', 'C12', 'C17', 'C18', 'C19')     # property files that contain source-translation equivalences
+SRC_TIED = ('C01', 'C02', 'C06', 'C08', 'C10', 'C11', 'C12', 'C13', 'C17', 'C18', 'C19')     # property files that contain source-translation equivalences
 
 
 def gen_src():
